@@ -20,7 +20,10 @@ VARIABLE c
 
 Bases == { <<I(1), Q(-1, 2)>>, <<I(0), I(3)>>,
            <<I(1), Q(-1, 2), I(2)>>, <<Q(1, 8), I(0), I(-2)>>,
-           <<I(1), Q(-1, 2), I(2), I(3)>>, <<I(0), I(0), Q(1, 4), I(1)>> }
+           <<I(1), Q(-1, 2), I(2), I(3)>>, <<I(0), I(0), Q(1, 4), I(1)>>,
+           \* a fourth coordinate far below the others: as a stored proper time it is beyond the spatial magnitude,
+           \* where every derived t collapses to 0 - stored coordinates still decide equality
+           <<I(1), Q(-1, 2), I(2), I(-6)>> }
 Deltas == { Q(1, 8), I(1), I(-4) }
 Tols == { I(0), Q(1, 8), Q(1, 2), I(2) }
 
